@@ -46,6 +46,16 @@ CORPUS += [
     b'if header [' + b'"a", ' * 500 + b'"z"] "b" { keep; }', b"# " + b"c" * 70000 + b"\nkeep;", b"/* " + b"*" * 5000 + b" */ keep;",
     b'require "reject"; reject text:\n' + b"line\n" * 3000 + b".\n;", b"keep;" * 2000,
 ]
+# tokens that never close, filled with what makes a pattern retry: escapes in a string whose quote is lost, dots and line
+# ends in a text block without its final dot, stars in a comment without its end — the verdict must still come at once
+CORPUS += [
+    b'keep "' + b"\\.abc" * 14, b'keep "' + b"\\.abc" * 40 + b";\nstop;\n", b'keep "' + b'a\\"b' * 20 + b"\\\n\";",
+    b'require ["regex"];\nif header :regex "received" "from ' + b"mx\\\\.example\\\\(" * 10 + b" {\n keep;\n}\n",
+    b'keep "' + b"\\" * 41, b'keep "' + b"\\\\" * 30 + b"\\\n",
+    b'require "reject"; reject text:\n' + b".x\n.\r x\n..\n" * 200, b"reject text:" + b"\n." * 400 + b"x",
+    b"/*" + b"* /" * 2000, b"/*" + b"*" * 3000, b"keep; /*" + b"/*" * 1500,
+    b"#" + b"\r" * 3000, b":" * 3000, b"9" * 3000 + b"KK;", b'"' * 3001,
+]
 
 
 def render(tokens):
